@@ -66,12 +66,13 @@ theorem doCommand_eq (h : Handler) (s : St) (v : Nat) : doCommand h s v =
     { s with cmd := { s.cmd with lane := { prev := some (h.lastCmd v), dirty := true }, dirty := true },
              sup := { s.sup with lane := { s.sup.lane with eventQ := s.sup.lane.eventQ ++ h.supplied v },
                                  dirty := s.sup.dirty || !(h.supplied v).isEmpty },
+             ad := { s.ad with buf := s.ad.buf ++ h.issuedBy v, issued := s.ad.issued ++ h.issuedBy v },
              trace := s.trace ++ h.entries v } := by
-  unfold doCommand Handler.entries Handler.supplied Handler.lastCmd
+  unfold doCommand Handler.entries Handler.supplied Handler.lastCmd Handler.issuedBy
   cases hs : h.selfCmd v with
-  | none => simp [setCommand, CmdLane.command, supplyAll_eq, hs]
+  | none => simp [setCommand, CmdLane.command, supplyAll_eq, sendAll, hs]
   | some u =>
-    simp only [setCommand, CmdLane.command, supplyAll_eq, hs]
+    simp only [setCommand, CmdLane.command, supplyAll_eq, sendAll, hs]
     simp [Bool.or_assoc]
     cases h.pushes u <;> cases h.pushes v <;> simp
 
@@ -199,18 +200,24 @@ theorem inv_retain {h : Handler} {s : St}
   obtain ⟨k, kp⟩ := retainSup_ok h3
   exact ⟨h1, h2, k.fifo, k.syncs, k.owed, kp, k.home, k.pipe⟩
 
-theorem inv_step (h : Handler) {s : St} (hi : Inv h s) (e : Ev) : Inv h (step h s e) := by
+/-- the loop iteration without `check_cmds` and the ad hoc channel (they do not touch what `Inv` is about) -/
+def stepCore (h : Handler) (s : St) : Ev → St
+  | .read l => readLane s l
+  | .readCmd => s
+  | e => retain (handleEv h s e)
+
+theorem inv_stepCore (h : Handler) {s : St} (hi : Inv h s) (e : Ev) : Inv h (stepCore h s e) := by
   have hs := supOk_of_inv hi
   cases e with
   | read l =>
     cases l with
     | cmd =>
-      simp only [step, readLane]
+      simp only [stepCore, readLane]
       cases hc : s.cmd.out.chan with
       | nil => simpa [hc] using hi
       | cons f rest => exact ⟨hi.handler, hi.supplied, hi.fifo, hi.syncs, hi.owed, hi.progress, hi.home, hi.pipe⟩
     | sup =>
-      simp only [step, readLane]
+      simp only [stepCore, readLane]
       cases hc : s.sup.out.chan with
       | nil => simpa [hc] using hi
       | cons f rest =>
@@ -266,18 +273,59 @@ theorem inv_step (h : Handler) {s : St} (hi : Inv h s) (e : Ev) : Inv h (step h 
   | writeDone l =>
     cases l with
     | cmd =>
-      simp only [step, handleEv]
+      simp only [stepCore, handleEv]
       cases hc : s.cmd.out.inflight with
       | none => exact inv_retain hi.handler hi.supplied hs
       | some f => exact inv_retain hi.handler hi.supplied hs
     | sup =>
-      simp only [step, handleEv]
+      simp only [stepCore, handleEv]
       cases hc : s.sup.out.inflight with
       | none => exact inv_retain hi.handler hi.supplied hs
       | some f =>
         refine inv_retain hi.handler hi.supplied ⟨hs.fifo, hs.syncs, hs.owed, by simp, ?_⟩
         show s.sup.taken ++ (s.sup.out.chan ++ [f]) ++ [] = s.sup.handed
         rw [← hi.pipe, hc]; simp
+  | readCmd => exact hi
+  | cmdSendDone =>
+    simp only [stepCore, handleEv]
+    split
+    · exact inv_retain hi.handler hi.supplied hs
+    · split
+      · exact inv_retain hi.handler hi.supplied hs
+      · exact inv_retain hi.handler hi.supplied hs
+
+/-- the facts of `Inv` only look at `sup`, `trace` and `received` -/
+theorem inv_congr {h : Handler} {s s' : St} (hi : Inv h s) (h1 : s'.sup = s.sup) (h2 : s'.trace = s.trace)
+    (h3 : s'.received = s.received) : Inv h s' := by
+  obtain ⟨a, b, c, d, e, f, g, i⟩ := hi
+  constructor <;> simp only [h1, h2, h3] <;> assumption
+
+@[simp] theorem checkCmds_sup (s : St) : (checkCmds s).sup = s.sup := by unfold checkCmds; split <;> rfl
+@[simp] theorem checkCmds_cmd (s : St) : (checkCmds s).cmd = s.cmd := by unfold checkCmds; split <;> rfl
+@[simp] theorem checkCmds_trace (s : St) : (checkCmds s).trace = s.trace := by unfold checkCmds; split <;> rfl
+@[simp] theorem checkCmds_received (s : St) : (checkCmds s).received = s.received := by
+  unfold checkCmds; split <;> rfl
+@[simp] theorem readCmd_sup (s : St) : (readCmd s).sup = s.sup := by unfold readCmd; split <;> rfl
+@[simp] theorem readCmd_trace (s : St) : (readCmd s).trace = s.trace := by unfold readCmd; split <;> rfl
+@[simp] theorem readCmd_received (s : St) : (readCmd s).received = s.received := by unfold readCmd; split <;> rfl
+
+theorem step_core (h : Handler) (s : St) (e : Ev) :
+    (step h s e).sup = (stepCore h s e).sup ∧ (step h s e).trace = (stepCore h s e).trace ∧
+    (step h s e).received = (stepCore h s e).received := by
+  cases e with
+  | read l => exact ⟨rfl, rfl, rfl⟩
+  | readCmd => simp [step, stepCore]
+  | cmdSendDone => exact ⟨rfl, rfl, rfl⟩
+  | writeDone l => exact ⟨rfl, rfl, rfl⟩
+  | sync l r => simp [step, stepCore, Ev.runsHandler, retain]
+  | command l b =>
+    cases l with
+    | sup => simp [step, stepCore, Ev.runsHandler, retain]
+    | cmd => cases b <;> simp [step, stepCore, Ev.runsHandler, retain]
+
+theorem inv_step (h : Handler) {s : St} (hi : Inv h s) (e : Ev) : Inv h (step h s e) := by
+  obtain ⟨h1, h2, h3⟩ := step_core h s e
+  exact inv_congr (inv_stepCore h hi e) h1 h2 h3
 
 theorem inv_run (h : Handler) (evs : List Ev) : ∀ (s : St), Inv h s → Inv h (run h s evs) := by
   induction evs with
@@ -288,19 +336,25 @@ theorem inv_run (h : Handler) (evs : List Ev) : ∀ (s : St), Inv h s → Inv h 
 
 theorem retain_received (s : St) : (retain s).received = s.received := rfl
 
-theorem step_received (h : Handler) (s : St) (e : Ev) : (step h s e).received = s.received ++ cmdBodies [e] := by
+theorem stepCore_received (h : Handler) (s : St) (e : Ev) :
+    (stepCore h s e).received = s.received ++ cmdBodies [e] := by
   cases e with
-  | read l => cases l <;> simp only [step, readLane] <;> (try split) <;> simp [cmdBodies]
+  | read l => cases l <;> simp only [stepCore, readLane] <;> (try split) <;> simp [cmdBodies]
+  | readCmd => simp [stepCore, cmdBodies]
+  | cmdSendDone => simp only [stepCore, handleEv]; split <;> (try split) <;> simp [retain, cmdBodies]
   | command l b =>
     cases l with
-    | sup => simp [step, handleEv, retain, cmdBodies]
+    | sup => simp [stepCore, handleEv, retain, cmdBodies]
     | cmd =>
       cases b with
-      | bad => simp [step, handleEv, retain, cmdBodies]
-      | ok v => simp [step, handleEv, retain, cmdBodies, doCommand_eq]
-  | sync l r => cases l <;> simp [step, handleEv, retain, cmdBodies]
+      | bad => simp [stepCore, handleEv, retain, cmdBodies]
+      | ok v => simp [stepCore, handleEv, retain, cmdBodies, doCommand_eq]
+  | sync l r => cases l <;> simp [stepCore, handleEv, retain, cmdBodies]
   | writeDone l =>
-    cases l <;> simp only [step, handleEv] <;> split <;> simp [retain, cmdBodies]
+    cases l <;> simp only [stepCore, handleEv] <;> split <;> simp [retain, cmdBodies]
+
+theorem step_received (h : Handler) (s : St) (e : Ev) : (step h s e).received = s.received ++ cmdBodies [e] := by
+  rw [(step_core h s e).2.2]; exact stepCore_received h s e
 
 theorem cmdBodies_cons (e : Ev) (rest : List Ev) : cmdBodies (e :: rest) = cmdBodies [e] ++ cmdBodies rest := by
   cases e with
@@ -308,6 +362,8 @@ theorem cmdBodies_cons (e : Ev) (rest : List Ev) : cmdBodies (e :: rest) = cmdBo
   | sync l r => simp [cmdBodies]
   | writeDone l => simp [cmdBodies]
   | read l => simp [cmdBodies]
+  | cmdSendDone => simp [cmdBodies]
+  | readCmd => simp [cmdBodies]
 
 theorem run_received (h : Handler) (evs : List Ev) : ∀ (s : St),
     (run h s evs).received = s.received ++ cmdBodies evs := by
